@@ -39,7 +39,7 @@ Lemma skeleton_calls :
   (forall o, (es_append0_dst o, es_append1_dst o, es_append2_dst o, es_append3_dst o,
               es_append4_dst o, es_append5_dst o, es_append6_dst o) = (o, o, o, o, o, o, o)) /\
   (forall n o, (es_ret_elided n, es_ret_out o) = (n, o)).
-Proof. repeat split; try reflexivity. left; reflexivity. Qed.
+Proof. repeat split; try reflexivity. first [left; reflexivity | right; reflexivity]. Qed.
 
 Lemma es_equal_decides : forall a b, es_equal a b = true <-> a = b.
 Proof. intros a b. unfold es_equal. apply Z.eqb_eq. Qed.
@@ -127,7 +127,9 @@ Ltac zb :=
 Section EditProofs.
   Variable T : Type.
   Variable eqb : T -> T -> bool.
-  Hypothesis eqb_refl : forall x, eqb x x = true.
+  (* a partial equivalence: symmetric and transitive.  Reflexivity is not needed: an element that
+     is related to anything is related to itself, and elements related to nothing (as NaN under
+     ==) never enter the LCS. *)
   Hypothesis eqb_sym : forall x y, eqb x y = true -> eqb y x = true.
   Hypothesis eqb_trans : forall x y z, eqb x y = true -> eqb y z = true -> eqb x z = true.
 
@@ -139,6 +141,29 @@ Section EditProofs.
   Local Notation EqT := (fun a b : T => eqb a b = true).
 
   (* ---- subsequences up to eqb ---------------------------------------------------------- *)
+
+  Lemma self_l : forall x y, eqb x y = true -> eqb x x = true.
+  Proof. intros x y H. eapply eqb_trans; [exact H | now apply eqb_sym]. Qed.
+
+  (* the elements of an eqb-subsequence are related to themselves ... *)
+  Lemma SubB_self : forall s l, SubB s l -> Forall (fun x => eqb x x = true) s.
+  Proof.
+    induction 1 as [l | s y l _ IH | x s y l Hxy _ IH]; [constructor | exact IH |].
+    constructor; [exact (self_l x y Hxy) | exact IH].
+  Qed.
+
+  (* ... so an exact subsequence of such elements is an eqb-subsequence *)
+  Lemma Subseq_SubB_self : forall s l,
+      Subseq s l -> Forall (fun x => eqb x x = true) s -> SubB s l.
+  Proof.
+    induction 1 as [l | s y l _ IH | x s y l Hxy _ IH]; intros Hs.
+    - apply sr_nil.
+    - apply sr_skip. now apply IH.
+    - inversion Hs; subst. apply sr_take; [assumption | now apply IH].
+  Qed.
+
+  Lemma Forall2_self_l : forall x y, Forall2 EqT x y -> Forall (fun a => eqb a a = true) x.
+  Proof. induction 1; constructor; [eapply self_l; eassumption | assumption]. Qed.
 
   (* dropping the heads of both keeps the subsequence: this is why the run extension may
      consume LCS elements without looking at them *)
@@ -633,7 +658,7 @@ Section EditProofs.
       rewrite Hrun. f_equal. apply all_emit_short; [|assumption].
       assert (Hlen : (length lhs <= length lcs)%nat).
       { apply Hopt.
-        - eapply SubseqR_mono; [|apply Subseq_refl]. cbn. intros x y ->. apply eqb_refl.
+        - apply Subseq_SubB_self; [apply Subseq_refl | exact (Forall2_self_l _ _ Heq)].
         - apply Forall2_SubseqR. exact Heq. }
       pose proof (Forall2_len _ _ _ Heq) as Hlr.
       destruct (Valid_lengths T eqb F lhs rhs Hv) as [H1 H2].
@@ -645,7 +670,7 @@ Section EditProofs.
     Proof.
       intros es' Hv. destruct (Valid_common_subseq T eqb es' lhs rhs Hv) as (c & Hc & H1 & H2).
       rewrite <- Hc. apply Hopt; [|assumption].
-      eapply SubseqR_mono; [|exact H1]. cbn. intros x y ->. apply eqb_refl.
+      apply Subseq_SubB_self; [exact H1 | exact (SubB_self _ _ H2)].
     Qed.
   End WithLcs.
 End EditProofs.
